@@ -183,6 +183,23 @@ Theorem C05_stream_sim :
 Proof. exact stream_sim_gc. Qed.
 Print Assumptions C05_stream_sim.
 
+(* REGRESSION RECORD: aliasLive with ONE visited set per step.  program.go
+   calls aliasLive with a fresh visited set for every queried input; the
+   variant that clears one shared set per step is unsound: a successful query
+   leaves the values on its path marked, and the query for the step's next dead
+   input stops at them.  Witness: concat a b -> n, slice n -> l (live, returned),
+   both a and b at their last use in one instruction, a fresh value of b's
+   width next: no_premature_reuse fails and the streamed result differs from the
+   reference.  On the same program the code as it is (gc_visited: the visited
+   set written out, fresh per query) agrees with gc_fixed, the model the
+   theorems are about, and everything is fine; that agreement is also checked
+   on every generated program of every run (first flag of the observable). *)
+Theorem C05_gc_shared_visited_set_refuted :
+  ~ (forall p steps g, wf_prog p steps = true -> gc_shared_seen steps = Some g ->
+       no_premature_reuse p g = true).
+Proof. exact gc_shared_seen_refuted. Qed.
+Print Assumptions C05_gc_shared_visited_set_refuted.
+
 (* THE ALLOCATOR'S VALUE TABLE.  Lang/Gc.v keeps WireAllocator's table of
    allocated values as a finite map ([whash], an association list).  The Go code
    keeps it as 10240 hash buckets of chained headers, where lookup moves a hit
